@@ -1,6 +1,7 @@
 package main
 
 import (
+	"encoding/json"
 	"fmt"
 	"strings"
 	gotime "time"
@@ -173,6 +174,8 @@ func runC02(env *Env, data map[string]any) *Outcome {
 		}
 		o.Evals = 2
 	}
+	// the places the property names as observation points: `klog json` (per record and per entry)
+	c02Json(env, o, text, rs, wantTotal, wantShould)
 	shifted := strings.Contains(text, "<") || strings.Contains(text, ">") || strings.Contains(text, "?")
 	o.Nontrivial = len(rs) >= 2 && shifted
 	o.Tags = append(o.Tags, fmt.Sprintf("records:%d", min(len(rs), 5)))
@@ -181,4 +184,90 @@ func runC02(env *Env, data map[string]any) *Outcome {
 	}
 	o.Sample = map[string]any{"text": short(text, 160), "now": now, "total": wantTotal}
 	return o
+}
+
+// c02Json: `klog json` must report, per record, total_mins = sum of its entries' total_mins,
+// diff_mins = total_mins - should_total_mins (an absent should-total counts as 0), and over all
+// records the specification's total and should-total.
+func c02Json(env *Env, o *Outcome, text string, rs []klog.Record, wantTotal, wantShould int) {
+	file := writeFile(env, "c02.klg", text)
+	res := runCLI(env, CLIOpts{Now: mkTime(2021, 3, 4, 12, 0)}, "json", file)
+	o.Evals++
+	if res.Panic != "" || res.Code != 0 {
+		o.Findings = append(o.Findings, Finding{Kind: "D", What: "`klog json` of a valid file fails: " + res.Panic + res.Err, Signature: crashSignature("C02", res.Panic, nil)})
+		return
+	}
+	var out struct {
+		Records []struct {
+			Total     int    `json:"total_mins"`
+			Should    int    `json:"should_total_mins"`
+			Diff      int    `json:"diff_mins"`
+			TotalStr  string `json:"total"`
+			ShouldStr string `json:"should_total"`
+			DiffStr   string `json:"diff"`
+			Entries   []struct {
+				Total int `json:"total_mins"`
+			} `json:"entries"`
+		} `json:"records"`
+	}
+	if err := json.Unmarshal([]byte(res.Stdout), &out); err != nil {
+		o.Findings = append(o.Findings, Finding{Kind: "D", What: "`klog json` output is not JSON: " + err.Error()})
+		return
+	}
+	if len(out.Records) != len(rs) {
+		o.Findings = append(o.Findings, Finding{Kind: "D", What: fmt.Sprintf("`klog json` lists %d records, the file has %d", len(out.Records), len(rs))})
+		return
+	}
+	sumT, sumS := 0, 0
+	for i, r := range out.Records {
+		es := 0
+		for _, e := range r.Entries {
+			es += e.Total
+		}
+		if r.Total != es {
+			o.Findings = append(o.Findings, Finding{Kind: "D", What: fmt.Sprintf("`klog json` record %d: total_mins %d is not the sum of its entries (%d)", i+1, r.Total, es), Impl: short(res.Stdout, 600)})
+			return
+		}
+		if r.Diff != r.Total-r.Should {
+			o.Findings = append(o.Findings, Finding{Kind: "D", What: fmt.Sprintf("`klog json` record %d: diff_mins %d is not total_mins - should_total_mins (%d - %d)", i+1, r.Diff, r.Total, r.Should), Impl: short(res.Stdout, 600)})
+			return
+		}
+		if want := durCanonPlain(r.Diff, true); r.DiffStr != want {
+			o.Findings = append(o.Findings, Finding{Kind: "D", What: fmt.Sprintf("`klog json` record %d: diff %q does not denote diff_mins %d", i+1, r.DiffStr, r.Diff), Impl: short(res.Stdout, 600)})
+			return
+		}
+		if want := durCanonPlain(r.Total, false); r.TotalStr != want {
+			o.Findings = append(o.Findings, Finding{Kind: "D", What: fmt.Sprintf("`klog json` record %d: total %q does not denote total_mins %d", i+1, r.TotalStr, r.Total), Impl: short(res.Stdout, 600)})
+			return
+		}
+		sumT += r.Total
+		sumS += r.Should
+	}
+	if sumT != wantTotal || sumS != wantShould {
+		o.Findings = append(o.Findings, Finding{Kind: "D", What: fmt.Sprintf("`klog json`: the records' totals add up to %d / %d, the specification says %d / %d", sumT, sumS, wantTotal, wantShould), Impl: short(res.Stdout, 600)})
+	}
+}
+
+// durCanonPlain: klog's notation of a number of minutes (`1h30m`, `-45m`, `0m`), with an explicit
+// `+` for positive values when signed.
+func durCanonPlain(mins int, signed bool) string {
+	if mins == 0 {
+		return "0m"
+	}
+	sign := ""
+	if mins < 0 {
+		sign = "-"
+		mins = -mins
+	} else if signed {
+		sign = "+"
+	}
+	h, m := mins/60, mins%60
+	s := sign
+	if h > 0 {
+		s += fmt.Sprintf("%dh", h)
+	}
+	if m > 0 {
+		s += fmt.Sprintf("%dm", m)
+	}
+	return s
 }
